@@ -9,7 +9,7 @@
 //     two), l.bloom_shift < 64, and GnuHashLayout::allocate reserves exactly
 //     16 + 8*bloom_count + 4*bucket_count + 4*num_defs bytes - the bytes write_gnu_hash_tables
 //     consumes (its `debug_assert_eq!(rest.len(), 0)`);
-//   (order, BOUNDED n <= 2) afterwards the definitions are a permutation of the input ordered by
+//   (order, BOUNDED n = 4) afterwards the definitions are a permutation of the input ordered by
 //     bucket_for_hash(hash) - the precondition of write_gnu_hash_tables' contract.
 // The sort is rayon's par_sort_unstable_by_key, which Kani cannot run (threads).  It is replaced
 // via #[kani::stub] on rayon's internal par_quicksort: by a no-op in the geometry obligation
@@ -81,26 +81,25 @@ fn c08_gnu_hash_geometry_for_every_symbol_count() {
     assert!(*sizes.get(part_id::GNU_HASH) == want, ".gnu.hash allocation differs from header + bloom + buckets + chains");
 }
 
-static NAMES: [&[u8]; 3] = [b"a", b"b", b"c"];
+static NAMES: [&[u8]; 4] = [b"a", b"b", b"c", b"d"];
 
+// n = 4 is the smallest definition count for which create_gnu_hash_layout uses two buckets
+// ((4 / 2).next_power_of_two() == 2), i.e. for which the order matters.
 #[kani::proof]
-#[kani::unwind(6)]
+#[kani::unwind(7)]
 #[kani::stub(rayon::slice::sort::par_quicksort, sequential_sort)]
-fn c08_definitions_are_ordered_by_bucket_up_to_2() {
+fn c08_definitions_are_ordered_by_bucket_4_symbols() {
+    const N: usize = 4;
     let args = crate::args::elf::__verif_elf_args::partial_args_hash_style(HashStyle::Gnu);
-    let n: usize = kani::any();
-    kani::assume(n <= 2);
-    let hashes: [u32; 3] = kani::any();
-    let mut defs: Vec<DynamicSymbolDefinition<'static, Elf>> = Vec::with_capacity(3);
+    let hashes: [u32; N] = kani::any();
+    let mut defs: Vec<DynamicSymbolDefinition<'static, Elf>> = Vec::with_capacity(N);
     let mut i = 0;
-    while i < 3 {
-        if i < n {
-            defs.push(DynamicSymbolDefinition {
-                symbol_id: crate::symbol_db::SymbolId::undefined(),
-                name: NAMES[i],
-                format_specific: DynamicSymbolDefinitionExt { hash: hashes[i], version: 0 },
-            });
-        }
+    while i < N {
+        defs.push(DynamicSymbolDefinition {
+            symbol_id: crate::symbol_db::SymbolId::undefined(),
+            name: NAMES[i],
+            format_specific: DynamicSymbolDefinitionExt { hash: hashes[i], version: 0 },
+        });
         i += 1;
     }
     let l = create_gnu_hash_layout(args, OutputKind::SharedObject, &mut defs[..]);
@@ -108,21 +107,20 @@ fn c08_definitions_are_ordered_by_bucket_up_to_2() {
         assert!(false, "no layout for a shared object with --hash-style=gnu");
         return;
     };
+    assert!(l.bucket_count == 2);
     // ordered by bucket
     let mut i = 1;
-    while i < 3 {
-        if i < n {
-            assert!(l.bucket_for_hash(defs[i - 1].format_specific.hash) <= l.bucket_for_hash(defs[i].format_specific.hash), "definitions not ordered by hash bucket");
-        }
+    while i < N {
+        assert!(l.bucket_for_hash(defs[i - 1].format_specific.hash) <= l.bucket_for_hash(defs[i].format_specific.hash), "definitions not ordered by hash bucket");
         i += 1;
     }
     // permutation: every input (name, hash) pair is still there exactly once (names are distinct)
     let k: usize = kani::any();
-    kani::assume(k < n);
+    kani::assume(k < N);
     let mut count = 0;
     let mut i = 0;
-    while i < 3 {
-        if i < n && defs[i].name[0] == NAMES[k][0] {
+    while i < N {
+        if defs[i].name[0] == NAMES[k][0] {
             count += 1;
             assert!(defs[i].format_specific.hash == hashes[k], "a definition's hash was separated from its name");
         }
